@@ -440,11 +440,15 @@ _LINK_RULE = (" Component `link`: one real SendTransaction and one real RecvTran
               "passes while a PDU is in flight; files of 0, 1, seg-1, seg, seg+1, k*seg bytes incl. zero runs and checksum-neutral "
               "words), ~30% blackout / unbounded loss / user cancel, ~20% free (suspend/resume/prompt/report, random handlers).")
 PROPS["C02"] = dict(_tx("C02", ["C02_one_clean_round_suffices", "C02_any_order_any_duplication", "C02_pieces_cover_request",
-                                "C02_requests_exactly_what_is_missing", "C02_timer_gives_up_only_at_limit"], ["link", "recv", "send"],
+                                "C02_requests_exactly_what_is_missing", "C02_timer_gives_up_only_at_limit",
+                                "C02_closing_receiver_completes", "C02_closing_sender_acks_and_ends",
+                                "C02_closing_receiver_ends_on_ack"], ["link", "recv", "send"],
     "Proof (PARTIAL) of the recovery argument at the data level: from ANY well-formed state of the receiver's bookkeeping and "
     "any file size, the requests the receiver computes (exactly what is missing, C08) answered with the pieces the sender cuts "
     "them into (C07) complete the file - in any order, with any duplication, an empty file and a missing first segment "
-    "included; the retransmission timers give up only after max_count whole periods (C17). The property itself - for every "
+    "included; the retransmission timers give up only after max_count whole periods (C17); the closing steps (a receiver that misses nothing "
+    "finalises at once with a Finished PDU ready; a sender handed it reports, ACKs and terminates; the receiver terminates on that "
+    "ACK). The property itself - for every "
     "placement of fewer than max_count faults the transfer completes at both ends with destination == source - is the oracle "
     "of the `link` correspondence stream, evaluated on the REAL pair of transactions and compared step by step with the "
     "extracted system model.",
